@@ -808,10 +808,17 @@ pub fn gen_case(prop: Prop, rng: &mut Rng) -> GenCase {
             nruns = match rng.below(24) {
                 0 | 1 => 4,
                 2 => rng.range(5, 6),
+                // many runs created on one graph value while the first ones are alive
+                3 => rng.range(9, 10),
                 _ => rng.range(2, 3),
             };
             allow_wide = false;
             knobs.apis = apis_for(&all_fams, true);
+            if nruns >= 9 && rng.chance(2, 3) {
+                // ... all of one family (e.g. ten streams)
+                let fam = [Stream, Stream, ForEach, Fold][rng.below(4)];
+                knobs.apis = apis_for(&[fam], true);
+            }
         }
     }
     // every single-run property is also exercised after earlier runs on the same graph
@@ -834,7 +841,7 @@ pub fn gen_case(prop: Prop, rng: &mut Rng) -> GenCase {
         }
     }
     let mut n = pick_n(rng, allow_wide, wide_pct, min_n);
-    if !allow_wide && rng.chance(1, 16) {
+    if !allow_wide && rng.chance(1, 5) {
         // histories / simultaneous runs: moderately wide graphs, too
         n = [32, 33, 40, 65][rng.below(4)];
     }
